@@ -32,14 +32,36 @@
 #include <omp.h>
 
 using vf::Csr; using vf::J; using vf::Rng; using vf::Case; using vf::LD; using vf::LV;
-typedef amgcl::backend::builtin<double> Backend;
-typedef amgcl::backend::crs<double> Mat;
-typedef amgcl::amg<Backend, amgcl::runtime::coarsening::wrapper, amgcl::runtime::relaxation::wrapper> AMG;
-typedef boost::property_tree::ptree ptree;
-typedef amgcl::backend::numa_vector<double> NV;
-
+// VF_BS = 1: scalar double backend (default).  VF_BS = 2, 3: the same monitors (except item 4, whose
+// domain is scalar M-matrices) on the block-valued backend builtin<static_matrix<double,BS,BS>> with
+// Kronecker matrices A (x) C, C SPD.  All sizes below are scalar sizes (block rows * BS).
+#ifndef VF_BS
+#  define VF_BS 1
+#endif
+static const int BS = VF_BS;
+#if VF_BS == 1
+typedef double Val; typedef double Rhs;
+static inline double bget(const Val &v, int, int) { return v; }
+static inline double &rget(Rhs &v, int) { return v; }
+static const int NCOARS = 4, NRELAX = 9, NRELAX_SCALING = 8;
 static const char *COARS[] = {"aggregation", "smoothed_aggregation", "smoothed_aggr_emin", "ruge_stuben"};
 static const char *RELAX9[] = {"damped_jacobi", "spai0", "gauss_seidel", "ilu0", "iluk", "ilup", "chebyshev", "spai1", "ilut"};   // first 7: symmetric smoothers of the property
+#else
+#include <amgcl/value_type/static_matrix.hpp>
+#include <amgcl/adapter/block_matrix.hpp>
+typedef amgcl::static_matrix<double, VF_BS, VF_BS> Val; typedef amgcl::static_matrix<double, VF_BS, 1> Rhs;
+static inline double bget(const Val &v, int r, int c) { return v(r, c); }
+static inline double &rget(Rhs &v, int r) { return v(r, 0); }
+// Ruge-Stuben and SPAI-1 are not offered for block value types (coarsening_is_supported / relaxation_is_supported)
+static const int NCOARS = 3, NRELAX = 8, NRELAX_SCALING = 7;
+static const char *COARS[] = {"aggregation", "smoothed_aggregation", "smoothed_aggr_emin"};
+static const char *RELAX9[] = {"damped_jacobi", "spai0", "gauss_seidel", "ilu0", "iluk", "ilup", "chebyshev", "ilut"};
+#endif
+typedef amgcl::backend::builtin<Val> Backend;
+typedef amgcl::backend::crs<Val> Mat;
+typedef amgcl::amg<Backend, amgcl::runtime::coarsening::wrapper, amgcl::runtime::relaxation::wrapper> AMG;
+typedef boost::property_tree::ptree ptree;
+typedef amgcl::backend::numa_vector<Rhs> NV;
 static const double U = 1.1102230246251565e-16;
 
 struct Cfg { std::string coars, relax; unsigned npre = 1, npost = 1, ncycle = 1, pre_cycles = 1, coarse_enough = 10, max_levels = 0; bool direct = true; ptree p; J desc; };
@@ -76,10 +98,26 @@ static Cfg draw(Rng &r, const std::string &coars, const std::string &relax, bool
     return c;
 }
 
+#if VF_BS == 1
 static std::shared_ptr<AMG> build(const Csr<double> &A, const ptree &p) { return std::make_shared<AMG>(A.tie(), AMG::params(p)); }
-static LD extractB(const AMG &a, size_t n) { return vf::extract_operator(n, [&](const std::vector<double> &f, std::vector<double> &x) { a.apply(f, x); }); }
+static void apply(const AMG &a, const std::vector<double> &f, std::vector<double> &x) { a.apply(f, x); }
+static void cycle(const AMG &a, const std::vector<double> &f, std::vector<double> &x) { a.cycle(f, x); }
+#else
+static std::shared_ptr<AMG> build(const Csr<double> &A, const ptree &p) { return std::make_shared<AMG>(amgcl::adapter::block_matrix<Val>(A.tie()), AMG::params(p)); }
+static void apply(const AMG &a, const std::vector<double> &f, std::vector<double> &x) { size_t nb = f.size() / BS; auto F = amgcl::make_iterator_range(reinterpret_cast<const Rhs*>(f.data()), reinterpret_cast<const Rhs*>(f.data()) + nb); auto X = amgcl::make_iterator_range(reinterpret_cast<Rhs*>(x.data()), reinterpret_cast<Rhs*>(x.data()) + nb); a.apply(F, X); }
+static void cycle(const AMG &a, const std::vector<double> &f, std::vector<double> &x) { size_t nb = f.size() / BS; auto F = amgcl::make_iterator_range(reinterpret_cast<const Rhs*>(f.data()), reinterpret_cast<const Rhs*>(f.data()) + nb); auto X = amgcl::make_iterator_range(reinterpret_cast<Rhs*>(x.data()), reinterpret_cast<Rhs*>(x.data()) + nb); a.cycle(F, X); }
+#endif
+static LD extractB(const AMG &a, size_t n) { return vf::extract_operator(n, [&](const std::vector<double> &f, std::vector<double> &x) { apply(a, f, x); }); }
 static size_t nlevels(AMG &a) { return amgcl::verif::access::levels(a).size(); }
-static std::string sizes(AMG &a) { std::string s; for (auto &l : amgcl::verif::access::levels(a)) { if (!s.empty()) s += ">"; s += std::to_string(l.m_rows); } return s; }
+static std::string sizes(AMG &a) { std::string s; for (auto &l : amgcl::verif::access::levels(a)) { if (!s.empty()) s += ">"; s += std::to_string(l.m_rows * BS); } return s; }
+// dense scalar image of a (block-)valued CRS matrix
+static LD dense_of(const Mat &M) { LD D = LD::Zero(M.nrows * BS, M.ncols * BS); for (size_t i = 0; i < M.nrows; ++i) for (auto j = M.ptr[i]; j < M.ptr[i + 1]; ++j) for (int r = 0; r < BS; ++r) for (int c = 0; c < BS; ++c) D(i * BS + r, M.col[j] * BS + c) += (long double)bget(M.val[j], r, c); return D; }
+// the matrix of a case: scalar M-matrix (BS = 1) or its Kronecker product with an SPD block
+static Csr<double> case_matrix(Rng &r, int nmin, int nmax, std::string &fam, J &md) {
+    Csr<double> A = vf::random_spd_mmatrix(r, std::max(12, nmin / BS), std::max(16, nmax / BS), fam, &md);
+    if (BS == 1) return A;
+    std::vector<double> C = r.coin(0.25) ? vf::identity_block(BS) : vf::spd_block(BS, r); fam += "(x)C"; md.n("block", BS); return vf::kron(A, C, BS);
+}
 
 // number of smoothing / correction steps along one application (see the header comment)
 static double step_count(const Cfg &c, size_t L) { double s = 0, w = 1; for (size_t l = 0; l < L; ++l) { s += w; w *= c.ncycle; } return c.pre_cycles * (c.npre + c.npost + 2.0) * s; }
@@ -96,7 +134,10 @@ static bool check_finite(Case &c, const LD &B, const Cfg &cfg) {
 //---------------------------------------------------------------------------
 struct Lev { LD A, P, R, Mpre, Mpost, Sol; bool has_solve = false, has_relax = false, has_A = false, has_P = false; size_t n = 0; };
 
-static LV nv2lv(const NV &v) { LV r(v.size()); for (size_t i = 0; i < v.size(); ++i) r[i] = v[i]; return r; }
+static LV nv2lv(NV &v) { LV r(v.size() * BS); for (size_t i = 0; i < v.size(); ++i) for (int k = 0; k < BS; ++k) r[i * BS + k] = rget(v[i], k); return r; }
+static void nv_unit(NV &v, size_t j) { for (size_t i = 0; i < v.size(); ++i) for (int k = 0; k < BS; ++k) rget(v[i], k) = (i * BS + k == j) ? 1.0 : 0.0; }
+static void nv_zero(NV &v) { for (size_t i = 0; i < v.size(); ++i) for (int k = 0; k < BS; ++k) rget(v[i], k) = 0.0; }
+static void nv_col(NV &v, LD &M, size_t j) { for (size_t i = 0; i < v.size(); ++i) for (int k = 0; k < BS; ++k) M(i * BS + k, j) = rget(v[i], k); }
 
 // one-cycle solution operator X_l (x_out = x_in + X (f - A x_in)), from the documented recursion
 static LD ref_cycle(const std::vector<Lev> &L, size_t l, const Cfg &c) {
@@ -111,11 +152,11 @@ static LD ref_cycle(const std::vector<Lev> &L, size_t l, const Cfg &c) {
 }
 
 static void sub_cycle() {
-    long nmat = vf::tier(2, 14), N = nmat * 36, stride = vf::opt_int("stride", 1);
+    long cells = NCOARS * NRELAX, nmat = vf::tier(2, BS == 1 ? 14 : 5), N = nmat * cells, stride = vf::opt_int("stride", 1);
     for (long idx = 0; idx < N; ++idx) {
         if (!vf::selected("cycle", idx) || idx % stride) continue;
-        Rng r(vf::case_seed("cycle", idx)); int ci = (int)(idx % 4), ri = (int)((idx / 4) % 9); long rep = idx / 36;
-        std::string fam; J md; Csr<double> A = vf::random_spd_mmatrix(r, 40, rep % 4 == 3 ? 200 : 120, fam, &md); size_t n = A.n;
+        Rng r(vf::case_seed("cycle", idx)); int ci = (int)(idx % NCOARS), ri = (int)((idx / NCOARS) % NRELAX); long rep = idx / cells;
+        std::string fam; J md; Csr<double> A = case_matrix(r, 40, rep % 4 == 3 ? 200 : 120, fam, md); size_t n = A.n;
         Cfg cfg = draw(r, COARS[ci], RELAX9[ri], rep >= 1, false);
         Case c("cycle", idx, J().o("matrix", md).o("cfg", cfg.desc));
         try {
@@ -126,11 +167,11 @@ static void sub_cycle() {
             // --- 1. history independence: 200 applications / cycles on random, huge, tiny, sparse vectors, then B again
             { std::vector<double> f(n), x(n);
               for (int k = 0; k < 200; ++k) { double sc = k % 4 == 1 ? 1e100 : k % 4 == 2 ? 1e-290 : 1.0; for (auto &v : f) v = sc * r.uni(-1, 1); if (k % 7 == 0) { std::fill(f.begin(), f.end(), 0.0); f[r.next() % n] = 1e30; }
-                  if (k % 5 == 4) { for (auto &v : x) v = sc * r.uni(-1, 1); a.cycle(f, x); } else a.apply(f, x); }
+                  if (k % 5 == 4) { for (auto &v : x) v = sc * r.uni(-1, 1); cycle(a, f, x); } else apply(a, f, x); }
               LD B1 = extractB(a, n);
               c.check(vf::bitwise_equal(B0, B1), "history:action-changed:" + cfg.relax, "B extracted after 200 further applications differs bitwise from the first extraction");
               if (vf::opt_int("nonfinite_history", 1)) {     // an application to a NaN / Inf right-hand side must not poison later ones
-                  for (auto &v : f) v = r.uni(-1, 1); f[r.next() % n] = std::numeric_limits<double>::quiet_NaN(); f[r.next() % n] = std::numeric_limits<double>::infinity(); a.apply(f, x);
+                  for (auto &v : f) v = r.uni(-1, 1); f[r.next() % n] = std::numeric_limits<double>::quiet_NaN(); f[r.next() % n] = std::numeric_limits<double>::infinity(); apply(a, f, x);
                   LD B2 = extractB(a, n);
                   c.check(vf::bitwise_equal(B0, B2), "history:action-changed-after-nonfinite-rhs:" + cfg.relax, "B extracted after an application to a right-hand side holding NaN/Inf differs from the first extraction"); } }
             // --- 2. linearity
@@ -138,26 +179,26 @@ static void sub_cycle() {
               for (int k = 0; k < 6; ++k) { std::vector<double> f = vf::random_vector(n, r), g = vf::random_vector(n, r), h(n), x(n); double al = k < 2 ? r.uni(-2, 2) : r.logu(1e-8, 1e8) * (r.coin() ? 1 : -1), be = k < 2 ? r.uni(-2, 2) : r.logu(1e-8, 1e8);
                   if (k == 5) { std::fill(g.begin(), g.end(), 0.0); g[r.next() % n] = 1; }
                   for (size_t i = 0; i < n; ++i) h[i] = al * f[i] + be * g[i];
-                  a.apply(h, x); LV ref = B0 * vf::to_lv(h); double hn = 0; for (double v : h) hn = std::max(hn, std::fabs(v));
+                  apply(a, h, x); LV ref = B0 * vf::to_lv(h); double hn = 0; for (double v : h) hn = std::max(hn, std::fabs(v));
                   double err = 0; for (size_t i = 0; i < n; ++i) { double e = (double)fabsl((long double)x[i] - ref[i]); if (!(e <= err)) err = e; }
                   if (!(err <= bound * hn)) ok = false; if (hn > 0 && nB > 0) worst = std::max(worst, err / (hn * nB)); }
               c.check(ok, "linearity:superposition:" + cfg.relax, "apply(a f + b g) differs from a B f + b B g by more than the forward rounding bound", J().n("bound_rel", bound / nB).n("worst_rel", worst));
               vf::obs_max("max_linearity_err_rel", worst); }
             // --- 3. cycle structure through the accessor
             { auto &lv = amgcl::verif::access::levels(a); std::vector<Lev> L; bool consistent = true; double worst_cons = 0; size_t li = 0;
-              for (auto it = lv.begin(); it != lv.end(); ++it, ++li) { Lev l; l.n = it->m_rows; size_t m = l.n;
-                  if (it->A) { l.A = vf::amg_dense(*it->A); l.has_A = true; } if (it->P) { l.P = vf::amg_dense(*it->P); l.R = vf::amg_dense(*it->R); l.has_P = true; }
-                  if (it->relax) { l.has_relax = true; l.Mpre = LD(m, m); l.Mpost = LD(m, m); NV f(m), x(m), t(m);
-                      for (size_t j = 0; j < m; ++j) { for (size_t i = 0; i < m; ++i) { f[i] = (i == j); x[i] = 0; t[i] = 0; } it->relax->apply_pre(*it->A, f, x, t); for (size_t i = 0; i < m; ++i) l.Mpre(i, j) = x[i];
-                          for (size_t i = 0; i < m; ++i) { f[i] = (i == j); x[i] = 0; } it->relax->apply_post(*it->A, f, x, t); for (size_t i = 0; i < m; ++i) l.Mpost(i, j) = x[i]; }
+              for (auto it = lv.begin(); it != lv.end(); ++it, ++li) { Lev l; size_t mb = it->m_rows, m = mb * BS; l.n = m;
+                  if (it->A) { l.A = dense_of(*it->A); l.has_A = true; } if (it->P) { l.P = dense_of(*it->P); l.R = dense_of(*it->R); l.has_P = true; }
+                  if (it->relax) { l.has_relax = true; l.Mpre = LD(m, m); l.Mpost = LD(m, m); NV f(mb), x(mb), t(mb); nv_zero(t);
+                      for (size_t j = 0; j < m; ++j) { nv_unit(f, j); nv_zero(x); it->relax->apply_pre(*it->A, f, x, t); nv_col(x, l.Mpre, j);
+                          nv_zero(x); it->relax->apply_post(*it->A, f, x, t); nv_col(x, l.Mpost, j); }
                       // smoother consistency: one sweep from x0 is x0 + M (f - A x0)
-                      for (int pass = 0; pass < 2; ++pass) { const LD &Mx = pass ? l.Mpost : l.Mpre; NV x0(m); for (size_t i = 0; i < m; ++i) { f[i] = r.uni(-1, 1); x0[i] = r.uni(-1, 1); x[i] = x0[i]; }
+                      for (int pass = 0; pass < 2; ++pass) { const LD &Mx = pass ? l.Mpost : l.Mpre; NV x0(mb); for (size_t i = 0; i < mb; ++i) for (int k = 0; k < BS; ++k) { rget(f[i], k) = r.uni(-1, 1); rget(x0[i], k) = r.uni(-1, 1); rget(x[i], k) = rget(x0[i], k); }
                           if (pass) it->relax->apply_post(*it->A, f, x, t); else it->relax->apply_pre(*it->A, f, x, t);
-                          LV rl = nv2lv(f) - l.A * nv2lv(x0); LV ref = nv2lv(x0) + Mx * rl; long double nM = vf::norm_inf(Mx), nAl = vf::norm_inf(l.A);
-                          double err = 0; for (size_t i = 0; i < m; ++i) { double e = (double)fabsl((long double)x[i] - ref[i]); if (!(e <= err)) err = e; }
+                          LV rl = nv2lv(f) - l.A * nv2lv(x0); LV ref = nv2lv(x0) + Mx * rl; LV got = nv2lv(x); long double nM = vf::norm_inf(Mx), nAl = vf::norm_inf(l.A);
+                          double err = 0; for (size_t i = 0; i < m; ++i) { double e = (double)fabsl(got[i] - ref[i]); if (!(e <= err)) err = e; }
                           double bd = (double)(8 * 64 * 8 * U * (1 + nM * (1 + nAl)) * (1 + nM * nAl));   // <= 8 inner steps (Chebyshev degree, ILU solves), same derivation as the header bound
                           if (!(err <= bd)) consistent = false; worst_cons = std::max(worst_cons, err / bd); } }
-                  if (it->solve) { l.has_solve = true; l.Sol = LD(m, m); NV f(m), x(m); for (size_t j = 0; j < m; ++j) { for (size_t i = 0; i < m; ++i) { f[i] = (i == j); x[i] = 0; } (*it->solve)(f, x); for (size_t i = 0; i < m; ++i) l.Sol(i, j) = x[i]; } }
+                  if (it->solve) { l.has_solve = true; l.Sol = LD(m, m); NV f(mb), x(mb); for (size_t j = 0; j < m; ++j) { nv_unit(f, j); nv_zero(x); (*it->solve)(f, x); nv_col(x, l.Sol, j); } }
                   L.push_back(l); }
               c.check(consistent, "smoother:not-affine-consistent:" + cfg.relax, "a sweep started from x0 differs from x0 + M (f - A x0) with M extracted from the same smoother", J().n("worst_over_bound", worst_cons));
               // structural expectations of the documented recursion
@@ -180,6 +221,7 @@ static void sub_cycle() {
 //---------------------------------------------------------------------------
 // spd: monitor 4
 //---------------------------------------------------------------------------
+#if VF_BS == 1
 static void sub_spd() {
     long nmat = vf::tier(2, 20), N = nmat * 56, stride = vf::opt_int("stride", 1);
     for (long idx = 0; idx < N; ++idx) {
@@ -213,15 +255,16 @@ static void sub_spd() {
     }
 }
 
+#endif
 //---------------------------------------------------------------------------
 // scaling: monitor 5
 //---------------------------------------------------------------------------
 static void sub_scaling() {
-    long nmat = vf::tier(1, 8), N = nmat * 32, stride = vf::opt_int("stride", 1);
+    long cells = NCOARS * NRELAX_SCALING, nmat = vf::tier(1, BS == 1 ? 8 : 3), N = nmat * cells, stride = vf::opt_int("stride", 1);
     for (long idx = 0; idx < N; ++idx) {
         if (!vf::selected("scaling", idx) || idx % stride) continue;
-        Rng r(vf::case_seed("scaling", idx)); int ci = (int)(idx % 4), ri = (int)((idx / 4) % 8); long rep = idx / 32;   // RELAX9[0..7]: everything but ILUT
-        std::string fam; J md; Csr<double> A = vf::random_spd_mmatrix(r, 40, 140, fam, &md); size_t n = A.n;
+        Rng r(vf::case_seed("scaling", idx)); int ci = (int)(idx % NCOARS), ri = (int)((idx / NCOARS) % NRELAX_SCALING); long rep = idx / cells;   // RELAX9[0 .. NRELAX_SCALING-1]: everything but ILUT
+        std::string fam; J md; Csr<double> A = case_matrix(r, 40, 140, fam, md); size_t n = A.n;
         Cfg cfg = draw(r, COARS[ci], RELAX9[ri], rep >= 1, false);
         std::vector<int> ks = {2, -2}; ks.push_back((int)r.pick(std::vector<long>{1, -1, 3, -3})); ks.push_back((int)r.pick(std::vector<long>{10, -10, 9, -9, 40, -40}));
         Case c("scaling", idx, J().o("matrix", md).o("cfg", cfg.desc).arr("k", ks));
@@ -241,7 +284,9 @@ int main(int argc, char **argv) {
     vf::init(argc, argv);
     if (omp_get_max_threads() != 1 && !vf::opt_int("allow_threads", 0)) { fprintf(stderr, "c02 is a single-thread check (bitwise differentials)\n"); return 3; }
     if (vf::sub_enabled("cycle")) sub_cycle();
+#if VF_BS == 1
     if (vf::sub_enabled("spd")) sub_spd();
+#endif
     if (vf::sub_enabled("scaling")) sub_scaling();
     return vf::finish();
 }
